@@ -47,7 +47,7 @@ def main():
          "kind_free_text": "deterministic simulation with fault injection: real pthreads parked/released by a seeded baton scheduler; link-time interposed pthread primitives and clock; SimMPI shim <mpi.h> (threads-as-ranks) with seeded legal MPI nondeterminism; SimFS/SimStreamBuf with storage fault ops; decision-trace replay and minimisation"}
       ],
       "checks": [],
-      "notes": "See DESIGN.md. KNOWN_FINDINGS.txt lists fixed/recorded genuine defects.",
+      "notes": "See DESIGN.md (section 13: as built). KNOWN_FINDINGS.txt: 'fixed:' lines = genuine defects repaired by 'fix:' commits in /repo (suppress nothing), 'finding:' lines = recorded genuine defects (a check prints KNOWN-FINDING for them and exits 0; currently one, C13, pinned to a replay file). seeded/ = property-breaking changes from independent sub-agents with confirmation and verdicts, benign/ = property-preserving changes (no-false-alarm self-test), mutants/ = own mutant corpus; tools/selftest_{determinism,sensitivity,benign}.py run them.",
       "not_applicable": []
     }
     for pid in sorted(checks):
